@@ -23,7 +23,7 @@ DIAGRAMS = ["pithist", "obsfcst", "timeseries", "meteo", "qq", "autocorr", "auto
 AXES = [None, "time", "leadtime", "year", "month", "week", "day", "timeofday", "dayofyear", "monthofyear",
         "dayofmonth", "location", "elev", "lat", "lon", "threshold", "leadtimeday", "no", "obs", "fcst"]
 TYPES = ["plot", "text", "csv", "map", "rank", "maprank", "impact", "mapimpact"]
-VARIANTS = ["none", "r1", "r3", "q2", "r1q1", "b_within", "agg_median", "b_below_eq"]
+VARIANTS = ["none", "r1", "r3", "q2", "r1q1", "b_within", "agg_median", "b_below_eq", "r1_within", "q1"]
 SHAPES = ["prob2", "single", "allmiss", "det1"]
 
 
@@ -69,7 +69,8 @@ def build_shape(shape, workdir, seed):
 def variant_args(v):
     return {"none": [], "r1": ["-r", "5"], "r3": ["-r", "0,5,10"], "q2": ["-q", "0.1,0.9"],
             "r1q1": ["-r", "5", "-q", "0.5"], "b_within": ["-r", "0,5,10", "-b", "within"],
-            "agg_median": ["-agg", "median"], "b_below_eq": ["-r", "5", "-b", "below="]}[v]
+            "agg_median": ["-agg", "median"], "b_below_eq": ["-r", "5", "-b", "below="],
+            "r1_within": ["-r", "5", "-b", "within="], "q1": ["-q", "0.5"]}[v]
 
 
 def all_combos(metrics, tier):
@@ -129,8 +130,10 @@ def judge(o, ty):
     # ok
     if ty in ("csv", "text"):
         body = [l for l in text.split("\n") if l.strip() and not l.startswith("Warning")]
-        if len(body) < 2:
+        if len(body) < 1:
             return "violation", "no-table-output|type=%s" % ty, "returned normally without a table: %r" % text[-300:]
+        if len(body) < 2:
+            return "empty_table", None, None    # header only (nothing to report, e.g. no quantiles): not a crash
     else:
         if o.fig is None or len(o.fig.axes) == 0:
             return "violation", "no-figure-output|type=%s" % ty, "returned normally without drawing anything"
@@ -146,6 +149,8 @@ def run_one(ctx, shapes, combo):
     mpl.close("all")
     ctx.count("runs")
     ctx.count(kind)
+    if kind == "empty_table":
+        kind = "ok"
     rel = [os.path.basename(a) if os.sep in a else a for a in argv]
     ctx.case("%s|%s|%s|%s|%s" % (m, ax, ty, v, sh), True,
              {"argv": rel, "shape": sh, "outcome": kind, "status": o.status})
